@@ -102,7 +102,7 @@ func mkUpdateBody(supi string, chargingID int32, rg int32, req, used int32, lsn 
 	now := time.Now()
 	r := models.ChfConvergedChargingChargingDataRequest{SubscriberIdentifier: supi, ChargingId: chargingID,
 		NfConsumerIdentification: &models.ChfConvergedChargingNfIdentification{NFName: "smf", NodeFunctionality: "SMF"},
-		InvocationTimeStamp:      &now, InvocationSequenceNumber: lsn, NotifyUri: env.Sink.URL + "/notify/" + supi,
+		InvocationTimeStamp:      &now, InvocationSequenceNumber: lsn, NotifyUri: notifyURIOf(supi),
 		MultipleUnitUsage: []models.ChfConvergedChargingMultipleUnitUsage{{RatingGroup: rg, RequestedUnit: &models.RequestedUnit{TotalVolume: req},
 			UsedUnitContainer: []models.ChfConvergedChargingUsedUnitContainer{{QuotaManagementIndicator: models.QuotaManagementIndicator_ONLINE_CHARGING, TotalVolume: used, UplinkVolume: 1, LocalSequenceNumber: lsn}}}},
 		Triggers: trig(trigName)}
@@ -114,11 +114,25 @@ func mkCreateBody(supi string, chargingID int32) []byte {
 	return mkCreateBodyNamed(supi, chargingID, "smf")
 }
 
+// noNotifyUri: the requests of the current burst leave the optional notifyUri out
+var noNotifyUri bool
+
+func notifyURIOf(supi string) string {
+	if noNotifyUri {
+		return ""
+	}
+	return env.Sink.URL + "/notify/" + supi
+}
+
 func mkCreateBodyNamed(supi string, chargingID int32, name string) []byte {
 	now := time.Now()
+	uri := env.Sink.URL + "/notify/" + supi
+	if noNotifyUri {
+		uri = ""
+	}
 	r := models.ChfConvergedChargingChargingDataRequest{SubscriberIdentifier: supi, ChargingId: chargingID,
 		NfConsumerIdentification: &models.ChfConvergedChargingNfIdentification{NFName: name, NodeFunctionality: "SMF"},
-		InvocationTimeStamp:      &now, InvocationSequenceNumber: 1, NotifyUri: env.Sink.URL + "/notify/" + supi,
+		InvocationTimeStamp:      &now, InvocationSequenceNumber: 1, NotifyUri: uri,
 		MultipleUnitUsage: []models.ChfConvergedChargingMultipleUnitUsage{{RatingGroup: 1, RequestedUnit: &models.RequestedUnit{TotalVolume: 10}}}}
 	b, _ := json.Marshal(r)
 	return b
@@ -158,6 +172,9 @@ func oneBurst(c C09Case, rep int) (sig, msg string, nt bool) {
 	credited := map[string]int64{}
 	usage := map[string]int64{}
 	lsn := int32(1000 * (rep + 1))
+	// every other repetition of the workloads with recharges: the consumers registered no notification URI
+	noNotifyUri = (c.Kind == "same-sub" || c.Kind == "mixed") && (rep/len(allKinds))%2 == 1
+	defer func() { noNotifyUri = false }()
 	newSession := func(supi string) (session, bool) {
 		chargingIDSeq++
 		code, _, hd := doHTTP("POST", prefix+"/chargingdata", mkCreateBody(supi, chargingIDSeq), nil)
